@@ -8,7 +8,8 @@ sys.path.insert(0, os.path.dirname(os.path.abspath(__file__)))
 os.environ.setdefault("PYTHONHASHSEED", "0")
 import common
 
-ENGINE = {"C01": "eng_eval", "C02": "eng_eval", "C14": "eng_eval", "C17": "eng_eval"}
+ENGINE = {"C01": "eng_eval", "C02": "eng_eval", "C14": "eng_eval", "C17": "eng_eval",
+          "C03": "eng_diff", "C04": "eng_diff", "C07": "eng_diff"}
 
 
 def main(argv):
